@@ -3236,6 +3236,12 @@ func (p *Posix) DeleteObject(ctx context.Context, input *s3.DeleteObjectInput) (
 				if err != nil && !errors.Is(err, meta.ErrNoSuchKey) {
 					return nil, fmt.Errorf("delete versionId: %w", err)
 				}
+				// the marker is the key's null entry now: as for a write in
+				// a suspended bucket, an older stored null version goes away
+				err = p.deleteNullVersionIdObject(bucket, object)
+				if err != nil {
+					return nil, err
+				}
 			}
 
 			verifhook.At("del.vid_set", "path", objpath)
